@@ -152,8 +152,30 @@ def conditional_flags(ctx, rule='A5f'):
            'variable', short(cs[0], 120) if cs else 'missing')
     f3 = ctx.fn(f'{ENC}:EagerEncoder.get_design_variables')
     t = FnText(ctx, f3)
-    ok = 'is_cond_act = np.any(des_vectors == X_INACTIVE_VALUE, axis=0)' in t and \
-        'conditionally_active=is_cond_act[i_dv]' in t
+    # the flag handed to each declared variable is the entry of its own column in `any(table == -1, axis=0)`: indexed
+    # with the position of the variable, or paired with it by zip
+    ok = False
+    flag_defs = {norm(a.targets[0]) for a in walk_fn(f3) if isinstance(a, ast.Assign) and
+                 isinstance(a.value, ast.Call) and call_name(a.value) == 'any' and a.value.args and
+                 isinstance(a.value.args[0], ast.Compare) and isinstance(a.value.args[0].ops[0], ast.Eq) and
+                 norm(a.value.args[0].comparators[0]) == 'X_INACTIVE_VALUE' and
+                 norm(kwarg(a.value, 'axis') or ast.Constant(None)) == '0'}
+    for comp in [x for x in ast.walk(f3.node) if isinstance(x, (ast.ListComp, ast.GeneratorExp))]:
+        cs3 = [c for c in ast.walk(comp.elt) if isinstance(c, ast.Call) and call_name(c) == 'DiscreteDV']
+        if not cs3 or len(comp.generators) != 1:
+            continue
+        kw = kwarg(cs3[0], 'conditionally_active')
+        g = comp.generators[0]
+        if kw is None:
+            continue
+        if isinstance(kw, ast.Subscript) and norm(kw.value) in flag_defs and isinstance(g.iter, ast.Call) and \
+                call_name(g.iter) == 'enumerate' and isinstance(g.target, ast.Tuple) and \
+                norm(kw.slice) == norm(g.target.elts[0]):
+            ok = True
+        if isinstance(kw, ast.Name) and isinstance(g.iter, ast.Call) and call_name(g.iter) == 'zip' and \
+                isinstance(g.target, ast.Tuple) and len(g.target.elts) == len(g.iter.args):
+            paired = {norm(t_): norm(a_) for t_, a_ in zip(g.target.elts, g.iter.args)}
+            ok = ok or paired.get(kw.id) in flag_defs
     ctx.ob(rule, fkey(f3, rule, 'eager-flag-from-marks'), ok, f3.where,
            'an eagerly encoded variable is conditionally active iff some stored design vector marks it -1', '')
     # every existence pattern that has at least one valid vector takes part in the merge (a pattern without
